@@ -27,12 +27,17 @@ def fresh(prefix: str, sort=None):
 
 
 class Ty:
-    __slots__ = ("kind", "arg", "items")
+    __slots__ = ("kind", "arg", "items", "region")
 
-    def __init__(self, kind, arg=None, items=None):
+    def __init__(self, kind, arg=None, items=None, region="c"):
         self.kind = kind
         self.arg = arg
         self.items = items
+        # list memory is split into regions with separate Len/El arrays: "c" = lists of
+        # the scheduling core (instance, schedule, dispatcher), "o" = lists owned by
+        # observers.  The region is part of the static type; a store that would mix
+        # regions is rejected by the engine.
+        self.region = region
 
     def __repr__(self):
         if self.kind in ("ref", "list", "opt", "set", "deque"):
@@ -47,6 +52,7 @@ class Ty:
             and self.kind == other.kind
             and self.arg == other.arg
             and self.items == other.items
+            and self.region == other.region
         )
 
     def __hash__(self):
@@ -71,8 +77,8 @@ def CALLREF(contract_name=None):
     return Ty("callref", contract_name)
 
 
-def LIST(elem):
-    return Ty("list", elem)
+def LIST(elem, region="c"):
+    return Ty("list", elem, region=region)
 
 
 def OPT(inner):
@@ -120,8 +126,8 @@ def vref(cls, t):
     return Val(REF(cls), t)
 
 
-def vlist(elem, t):
-    return Val(LIST(elem), t)
+def vlist(elem, t, region="c"):
+    return Val(LIST(elem, region), t)
 
 
 def vxint(t, isinf):
@@ -164,18 +170,35 @@ def from_int(ty: Ty, t, aux=None) -> Val:
     return Val(ty, t)
 
 
+REGIONS = ("c", "o")
+
+
 class Heap:
     """Immutable snapshot of the heap."""
 
-    def __init__(self, fields=None, Len=None, El=None, ElX=None, alloc=None, tag="", base=None):
+    def __init__(self, fields=None, mem=None, alloc=None, tag="", base=None):
         self.fields = dict(fields or {})
         # arrays of fields never written in this lineage; shared by all snapshots
         self.base = base if base is not None else {}
-        self.Len = Len if Len is not None else fresh(f"Len{tag}", ArrII)
-        self.El = El if El is not None else fresh(f"El{tag}", ArrIA)
-        self.ElX = ElX if ElX is not None else fresh(f"ElX{tag}", ArrIA)
+        if mem is None:
+            mem = {r: (fresh(f"Len{tag}_{r}", ArrII), fresh(f"El{tag}_{r}", ArrIA), fresh(f"ElX{tag}_{r}", ArrIA))
+                   for r in REGIONS}
+        self.mem = dict(mem)
         self.alloc = alloc if alloc is not None else fresh(f"alloc{tag}", I)
         self.tag = tag
+
+    # core-region arrays under their historical names (contracts use them)
+    @property
+    def Len(self):
+        return self.mem["c"][0]
+
+    @property
+    def El(self):
+        return self.mem["c"][1]
+
+    @property
+    def ElX(self):
+        return self.mem["c"][2]
 
     # -- object fields -----------------------------------------------------
     def farr(self, name):
@@ -194,42 +217,65 @@ class Heap:
         return h
 
     # -- lists ---------------------------------------------------------------
+    @staticmethod
+    def _lr(l):
+        """a list designator is a z3 term (core region) or a list Val (its region)"""
+        if isinstance(l, Val):
+            return l.t, (l.ty.region or "c")
+        if isinstance(l, tuple):
+            return l
+        return l, "c"
+
+    def arrs(self, region="c"):
+        return self.mem[region]
+
+    def with_arrs(self, region, Len, El, ElX):
+        h = self.copy()
+        h.mem[region] = (Len, El, ElX)
+        return h
+
     def len(self, l):
-        return z3.Select(self.Len, l)
+        t, r = self._lr(l)
+        return z3.Select(self.mem[r][0], t)
+
+    def elarr(self, l):
+        t, r = self._lr(l)
+        return z3.Select(self.mem[r][1], t)
+
+    def elxarr(self, l):
+        t, r = self._lr(l)
+        return z3.Select(self.mem[r][2], t)
 
     def at(self, l, i):
-        return z3.Select(z3.Select(self.El, l), i)
+        return z3.Select(self.elarr(l), i)
 
     def atx(self, l, i):
-        return z3.Select(z3.Select(self.ElX, l), i) != 0
+        return z3.Select(self.elxarr(l), i) != 0
 
     def at2(self, l, i, j):
         return self.at(self.at(l, i), j)
 
     def set_len(self, l, n):
-        h = self.copy()
-        h.Len = z3.Store(self.Len, l, n)
-        return h
+        t, r = self._lr(l)
+        Len, El, ElX = self.mem[r]
+        return self.with_arrs(r, z3.Store(Len, t, n), El, ElX)
+
+    def set_elarr(self, l, arr, xarr=None):
+        t, r = self._lr(l)
+        Len, El, ElX = self.mem[r]
+        return self.with_arrs(r, Len, z3.Store(El, t, arr), ElX if xarr is None else z3.Store(ElX, t, xarr))
 
     def set_at(self, l, i, v, isinf=None):
-        h = self.copy()
-        h.El = z3.Store(self.El, l, z3.Store(z3.Select(self.El, l), i, v))
+        t, r = self._lr(l)
+        Len, El, ElX = self.mem[r]
+        El2 = z3.Store(El, t, z3.Store(z3.Select(El, t), i, v))
+        ElX2 = ElX
         if isinf is not None:
-            h.ElX = z3.Store(
-                self.ElX,
-                l,
-                z3.Store(
-                    z3.Select(self.ElX, l),
-                    i,
-                    z3.If(isinf, z3.IntVal(1), z3.IntVal(0)),
-                ),
-            )
-        return h
+            ElX2 = z3.Store(ElX, t, z3.Store(z3.Select(ElX, t), i, z3.If(isinf, z3.IntVal(1), z3.IntVal(0))))
+        return self.with_arrs(r, Len, El2, ElX2)
 
     def copy(self):
-        return Heap(
-            self.fields, self.Len, self.El, self.ElX, self.alloc, self.tag, self.base
-        )
+        return Heap(self.fields, self.mem, self.alloc, self.tag, self.base)
 
     def with_alloc(self, a):
         h = self.copy()
@@ -238,3 +284,30 @@ class Heap:
 
     def field_names(self):
         return sorted(set(self.fields) | set(self.base))
+
+
+def forall(vs, body, patterns=None):
+    """z3.ForAll that drops user patterns z3 rejects (patterns may not contain ite or
+    boolean structure) instead of failing."""
+    if patterns and not any(_has_ite(p) for p in patterns):
+        try:
+            return z3.ForAll(vs, body, patterns=patterns)
+        except z3.Z3Exception:
+            pass
+    return z3.ForAll(vs, body)
+
+
+def _has_ite(t):
+    todo = [t]
+    seen = set()
+    while todo:
+        u = todo.pop()
+        if u.get_id() in seen:
+            continue
+        seen.add(u.get_id())
+        if z3.is_app(u):
+            k = u.decl().kind()
+            if k in (z3.Z3_OP_ITE, z3.Z3_OP_AND, z3.Z3_OP_OR, z3.Z3_OP_NOT, z3.Z3_OP_IMPLIES):
+                return True
+            todo.extend(u.children())
+    return False
